@@ -1,6 +1,7 @@
 import MjProof.Lemmas.UserPoolStep
 import MjProof.Lemmas.UserPoolRank
 import MjProof.Lemmas.SpecCopy
+import MjProof.Lemmas.LRSlices
 /-
 C33  Compilation is deterministic and copy-invariant — the asset thread pool.
 
@@ -16,6 +17,10 @@ Second part (end of the file): which elements survive the deep copy behind `mj_c
 element whose references do not resolve yet).  `copy_lossless`: when the order of the `CopyList` calls is a topological
 order of the reference edges between element kinds (`kindOK`, evaluated by the check on the order and the edges
 extracted from the source of the tree on every run), no element is lost.
+
+Third part: the work partition of the threaded branch of `mjCModel::LengthRange` (`Model/LRSlices.lean`): the slices of
+the workers cover every actuator index exactly once (`lr_slices_partition`), so the threaded compile calls
+`mj_setLengthRange` for exactly the actuators the serial loop visits.
 -/
 set_option linter.unusedVariables false
 set_option linter.unusedSimpArgs false
@@ -409,6 +414,60 @@ example : kindOK [17, 18] [3] [(18, 3), (17, 18)] = false := by decide
 example : copySpec [17, 18] [3] [⟨3, 1, []⟩, ⟨18, 1, [(3, 1)]⟩, ⟨17, 1, [(18, 1)]⟩] = [(3, 1), (18, 1)] := by decide
 
 end SpecCopy
+
+
+/-! ### the threaded LengthRange visits every actuator exactly once -/
+section LRSlices
+open MjProof.LRSlices
+
+/-- the per-thread count computed by the `while` loop is enough for all `n` actuators -/
+theorem lr_per_thread_covers (n t : Nat) (ht : 1 ≤ t) : n ≤ perThread n t * t := by
+  unfold perThread
+  apply numLoop_ge
+  have h1 : n + 1 ≤ n / t + (n + 1) := Nat.le_add_left _ _
+  have h2 : (n + 1) * 1 ≤ (n / t + (n + 1)) * t := Nat.mul_le_mul h1 ht
+  omega
+
+/-- **partition**: for every number of actuators `n` and every number of workers `t ≥ 1`, every actuator index `j < n`
+    lies in the slice of exactly one worker `i < t`; and no worker visits an index `≥ n`. -/
+theorem lr_slices_partition (n t : Nat) (ht : 1 ≤ t) :
+    (∀ j, j < n → ∃ i, (i < t ∧ j ∈ slice n (perThread n t) i) ∧
+        ∀ i', i' < t ∧ j ∈ slice n (perThread n t) i' → i' = i) ∧
+    (∀ i j, j ∈ slice n (perThread n t) i → j < n) := by
+  have hcov := lr_per_thread_covers n t ht
+  refine ⟨?_, ?_⟩
+  · intro j hj
+    have hnum : 0 < perThread n t := by
+      rcases Nat.eq_zero_or_pos (perThread n t) with h | h
+      · rw [h] at hcov; omega
+      · exact h
+    refine ⟨j / perThread n t, ⟨?_, ?_⟩, ?_⟩
+    · apply Nat.div_lt_of_lt_mul
+      calc j < n := hj
+        _ ≤ perThread n t * t := hcov
+    · rw [mem_slice]
+      have h1 := Nat.div_add_mod j (perThread n t)
+      have h2 := Nat.mod_lt j hnum
+      have h3 : j / perThread n t * perThread n t = perThread n t * (j / perThread n t) := Nat.mul_comm _ _
+      refine ⟨by omega, by omega, hj⟩
+    · rintro i' ⟨_, hmem⟩
+      rw [mem_slice] at hmem
+      obtain ⟨h1, h2, _⟩ := hmem
+      symm
+      apply Nat.div_eq_of_lt_le
+      · exact h1
+      · have : (i' + 1) * perThread n t = i' * perThread n t + perThread n t := by
+          rw [Nat.add_mul, Nat.one_mul]
+        omega
+  · intro i j h
+    exact ((mem_slice n _ i j).mp h).2.2
+
+example : slices 6 2 = [[0, 1, 2], [3, 4, 5]] := by decide
+example : slices 7 3 = [[0, 1, 2], [3, 4, 5], [6]] := by decide
+-- the partition from the count of actuators that NEED work (2 of 6) instead of from all 6 would stop at index 1:
+example : (List.range 2).map (slice 6 ((2 + 2 - 1) / 2)) = [[0], [1]] := by decide
+
+end LRSlices
 
 
 end MjProof.C33
